@@ -75,7 +75,11 @@ impl PanicSite {
         while !kind.is_char_boundary(end) {
             end -= 1;
         }
-        let file = self.file.trim_start_matches("/repo/");
+        // repo-relative path, wherever the tree lives (scratch worktrees of the mutant runner included)
+        let file = match self.file.find("/repo/") {
+            Some(i) => &self.file[i + 6..],
+            None => self.file.as_str(),
+        };
         format!("panic@{}:{}", file, kind[..end].trim())
     }
 }
@@ -443,6 +447,11 @@ impl Session {
             start: Instant::now(),
             watchdog_s: 900,
         }
+    }
+
+    /// Account for evaluations made outside the runner (e.g. a libFuzzer campaign with the oracle in the target).
+    pub fn note_inner(&mut self, part: &str, n: u64) {
+        self.part_stats(part).inner_evals += n;
     }
 
     pub fn assume(&mut self, s: &str) {
